@@ -49,6 +49,15 @@ type PayloadRunner interface {
 	ShrinkPayload(payload []byte, test func([]byte) bool, deadline time.Time) []byte
 }
 
+// StatisticalReplayer is implemented by an engine that may have to run with a
+// nondeterminism source outside the simulator's control (C10 in degraded mode:
+// the library itself starts goroutines). Then a violation that does not replay
+// strictly is re-executed up to 20 times in fresh processes and reported if it
+// recurs at least once, with the count written into the replay file.
+type StatisticalReplayer interface {
+	StatisticalReplay() bool
+}
+
 // EvidenceExtra lets an engine add measured fields derived from the merged
 // statistics.
 type EvidenceExtra interface {
@@ -551,6 +560,10 @@ type ReplayFile struct {
 	Shrunk    bool        `json:"minimised"`
 	Attempts  int         `json:"shrink_attempts"`
 	Note      string      `json:"note,omitempty"`
+	// Statistical is set when the simulation ran degraded (the library starts
+	// goroutines of its own, which the scheduler does not own): the replay
+	// reproduces the violation only with the stated frequency.
+	Statistical string `json:"statistical_replay,omitempty"`
 }
 
 // replayer runs replay requests, either each in a fresh worker process
@@ -694,7 +707,20 @@ func processViolation(e Engine, opt *Options, c *violCase) (string, string) {
 			tr = tr0
 			rf.Scenario, rf.Violation.Detail = sample0, detail0
 			if ok, why := strictTwice(tr); !ok {
-				return "", "trace recorded from the seed did not replay strictly: " + why
+				sr, isSR := e.(StatisticalReplayer)
+				if !isSR || !sr.StatisticalReplay() {
+					return "", "trace recorded from the seed did not replay strictly: " + why
+				}
+				hits := 0
+				for i := 0; i < 20; i++ {
+					if ok, _, _, _ := reproduces(e, fresh, c, tr, true); ok {
+						hits++
+					}
+				}
+				if hits == 0 {
+					return "", "degraded simulation: violation did not recur in 20 fresh-process replays"
+				}
+				rf.Statistical = fmt.Sprintf("%d of 20 fresh-process replays reproduced the violation", hits)
 			}
 			if !opt.NoShrink {
 				rf.Note = "not minimised: shrunk candidates did not replay in fresh processes (state carried between calls inside one process); this is the full trace recorded from the seed"
@@ -801,6 +827,9 @@ func replayMain(e Engine, args []string) int {
 		c.payload, _ = hex.DecodeString(rf.Payload)
 	}
 	ok, _, _, detail := reproduces(e, &replayer{opt: &opt, fresh: true}, c, rf.Trace, rf.Trace != nil)
+	for i := 0; !ok && rf.Statistical != "" && i < 40; i++ {
+		ok, _, _, detail = reproduces(e, &replayer{opt: &opt, fresh: true}, c, rf.Trace, rf.Trace != nil)
+	}
 	if ok {
 		fmt.Printf("replayed: %s\n%s\n", rf.Violation.Sig, tail(detail, 4000))
 		fmt.Printf("VIOLATION property=%s replay=%s\n", e.ID(), file)
